@@ -232,7 +232,12 @@ class Select(Factory, Container):
         return f"<Select cut={self.cut.name}>"
 
     def __eq__(self, other):
-        return isinstance(other, Select) and numeq(self.entries, other.entries) and self.cut == other.cut
+        return (
+            isinstance(other, Select)
+            and self.quantity == other.quantity
+            and numeq(self.entries, other.entries)
+            and self.cut == other.cut
+        )
 
     def __ne__(self, other):
         return not self == other
